@@ -364,3 +364,12 @@ example : condOf [.stmt ['a'], .stmt ['b'], .ac ['a'] .top, .ac ['a'] (.atom ['b
   == some [1, 0]
 
 end C09
+
+#print axioms C09.hybrid_import_written_condition
+#print axioms C09.cli_bridge_is_this_bridge
+#print axioms C09.cli_hybrid_step_is_this_hybrid_step
+#print axioms C09.dump_spec_holds_for_reduced_shared_diagrams
+#print axioms C09.store_dump_is_ordered
+#print axioms C09.real_shaped_dump
+#print axioms C09.biodivine_from_parser_any_order
+#print axioms C09.hybrid_complete_stable_from_facts
